@@ -150,6 +150,28 @@ func (e *sfEnv) runUdp(sc *sfScenario, end M) (obs []sfObs) {
 				dg = proj.SfRtcp(el.B, el.N, ssrc)
 				conn, to, sentinel = t.rtcp, t.rRtcp, []byte{0x80, 0xff, 0, 0}
 			}
+			if el.K == "rtcp_seq" {
+				pt := ptOf[el.A]
+				codec := "avc"
+				if pt == 97 {
+					codec = "aac"
+				}
+				for _, d := range sfRtcpSeq(el.B, codec, pt, 500+i, uint32(3000*i), ssrcOf[pt]) {
+					c, a, sen := t.rtp, t.rRtp, []byte{0x80}
+					if d.rtcp {
+						c, a, sen = t.rtcp, t.rRtcp, []byte{0x80, 0xff, 0, 0}
+					}
+					if c == nil {
+						continue
+					}
+					c.WriteToUDP(d.b, a)
+					sent += uint64(len(d.b))
+					waitRead()
+					c.WriteToUDP(sen, a)
+					sent += uint64(len(sen))
+					waitRead()
+				}
+			}
 			if conn != nil && len(dg) > 0 {
 				conn.WriteToUDP(dg, to)
 				sent += uint64(len(dg))
